@@ -1102,6 +1102,79 @@ func checkUnrollFresh(p *Program, r *Report, at *arrayType, tname string, rule s
 	}
 }
 
+// startsAtZeroIndex: the index vector is the zero index when the enumeration starts: NewIndex(0), make([]int, n), a
+// literal of zeros, a leading part of one of those — or a parameter of an enumeration helper that every caller in the
+// module gives such a vector. Empty string = yes.
+func startsAtZeroIndex(p *Program, v ssa.Value, depth int) string {
+	if depth > 3 {
+		return "the index vector is handed through too many helpers"
+	}
+	for _, o := range origins(v) {
+		// a leading part idx[:k] of an index vector starts where the vector starts
+		for {
+			sl, isSl := o.(*ssa.Slice)
+			if !isSl || sl.Low != nil {
+				break
+			}
+			if os := origins(sl.X); len(os) == 1 && os[0] != nil {
+				o = os[0]
+			} else {
+				break
+			}
+		}
+		if _, isMake := o.(*ssa.MakeSlice); isMake {
+			continue // make([]int, n) is the zero index
+		}
+		if al, isAl := vecBaseDeep(o).(*ssa.Alloc); isAl {
+			// literal: all element stores must be the constant 0
+			zero := true
+			for _, ref := range refsDeep(al) {
+				if st, ok := ref.(*ssa.Store); ok {
+					if c0, ok := constInt(st.Val); !ok || c0 != 0 {
+						zero = false
+					}
+				}
+			}
+			if zero {
+				continue
+			}
+		}
+		if prm, isPrm := o.(*ssa.Parameter); isPrm {
+			fn := prm.Parent()
+			pi := -1
+			for i, fp := range fn.Params {
+				if fp == prm {
+					pi = i
+				}
+			}
+			nCallers := 0
+			for _, caller := range p.SrcFuncs() {
+				for _, cc := range callsIn(caller) {
+					if cc.Common().StaticCallee() != fn || pi >= len(cc.Common().Args) {
+						continue
+					}
+					nCallers++
+					if w := startsAtZeroIndex(p, cc.Common().Args[pi], depth+1); w != "" {
+						return w + " (as called from " + caller.Name() + ")"
+					}
+				}
+			}
+			if nCallers == 0 {
+				return "the index vector is a parameter and no caller in the module hands it a start"
+			}
+			continue
+		}
+		ic, ok := o.(*ssa.Call)
+		if !ok || callName(ic.Common()) != "NewIndex" {
+			return "the index vector does not start from NewIndex(0)"
+		}
+		if z, ok := constInt(callArgs(ic.Common())[0]); !ok || z != 0 {
+			return "the index vector does not start at the zero index"
+		}
+	}
+	return ""
+}
+
 // checkEnumerationLoops (R02.7): every loop that advances an index vector with Increment(idx, shape) visits
 // all Product(shape) elements: counter from 0, step 1, bound Product(shape) of the same shape, Increment on
 // every iteration, idx starting at the zero index.
@@ -1153,45 +1226,7 @@ func checkEnumerationLoops(p *Program, r *Report, cOnly bool) {
 			}
 			if bad == "" {
 				// idx starts as NewIndex(0)
-				for _, o := range origins(c.Common().Args[0]) {
-					// a leading part idx[:k] of an index vector starts where the vector starts
-					for {
-						sl, isSl := o.(*ssa.Slice)
-						if !isSl || sl.Low != nil {
-							break
-						}
-						if os := origins(sl.X); len(os) == 1 && os[0] != nil {
-							o = os[0]
-						} else {
-							break
-						}
-					}
-					if _, isMake := o.(*ssa.MakeSlice); isMake {
-						continue // make([]int, n) is the zero index
-					}
-					if al, isAl := vecBaseDeep(o).(*ssa.Alloc); isAl {
-						// literal: all element stores must be the constant 0
-						zero := true
-						for _, ref := range refsDeep(al) {
-							if st, ok := ref.(*ssa.Store); ok {
-								if c0, ok := constInt(st.Val); !ok || c0 != 0 {
-									zero = false
-								}
-							}
-						}
-						if zero {
-							continue
-						}
-					}
-					ic, ok := o.(*ssa.Call)
-					if !ok || callName(ic.Common()) != "NewIndex" {
-						bad = "the index vector does not start from NewIndex(0)"
-						continue
-					}
-					if z, ok := constInt(callArgs(ic.Common())[0]); !ok || z != 0 {
-						bad = "the index vector does not start at the zero index"
-					}
-				}
+				bad = startsAtZeroIndex(p, c.Common().Args[0], 0)
 			}
 			if bad != "" {
 				r.Fail("R02.7", key, p.Pos(c.Pos()), "row-major enumeration is incomplete: "+bad+" (some element of the view is never visited or visited twice)")
